@@ -324,7 +324,7 @@ def generate(rng):
         g.lookups_after("live", suffix)
     suffix.append({"op": "readback"})
     return {
-        "cfg": {"prune": prune, "cache": cache, "rc": rng.choice(["defaultdict", "defaultdict", "counter"]), "probe": [hx(x) for x in probes[:40]]},
+        "cfg": {"prune": prune, "cache": cache, "rc": rng.choice(["defaultdict", "defaultdict", "counter"]), "store": rng.choice(["min", "min", "dict"]), "probe": [hx(x) for x in probes[:40]]},
         "prefix": prefix,
         "ops": ops,
         "suffix": suffix,
@@ -370,4 +370,4 @@ def explore(rng, st):
     if not prune:
         for n in range(1, writes + 1):
             for applied in (0, 1):
-                execute(variant(base, (k, [{"op": "bcommit", "fw": [n, applied, "EKO"[(n + applied) % 3]], "_last": writes}])), st)
+                execute(variant(base, (k, [{"op": "bcommit", "fw": [n, applied, "EKOB"[(n + applied) % 4]], "_last": writes}])), st)
